@@ -1609,6 +1609,18 @@ impl Builder {
     }
 }
 
+// Verification hook (C20): a read-only open over a caller-supplied backend, which the public API
+// only offers for a path. Same body as `open_read_only` after the file has been opened.
+#[cfg(all(redb_verif, not(redb_no_std)))]
+impl Builder {
+    pub fn verif_open_read_only_with_backend(
+        &self,
+        backend: impl StorageBackend,
+    ) -> Result<ReadOnlyDatabase, DatabaseError> {
+        ReadOnlyDatabase::new(Box::new(backend), self.page_size, None, self.cache_size)
+    }
+}
+
 impl core::fmt::Debug for Database {
     fn fmt(&self, f: &mut Formatter<'_>) -> core::fmt::Result {
         f.debug_struct("Database").finish()
